@@ -323,8 +323,13 @@ func (fx *FuncExec) evalArgs(st *State, call *ast.CallExpr, sig *types.Signature
 }
 
 // applyContract: assert requires, havoc assigns, assume ensures.
-func (fx *FuncExec) applyContract(st *State, c *Contract, key string, cpkg *types.Package, sig *types.Signature, recv, self *Term, args []Term, pos token.Pos) []Term {
+func (fx *FuncExec) applyContract(st *State, c *Contract, key string, cpkg *types.Package, sig *types.Signature, recv, self *Term, args []Term, pos token.Pos, extra ...map[string]Term) []Term {
 	bound := map[string]Term{}
+	for _, m := range extra {
+		for k, v := range m {
+			bound[k] = v
+		}
+	}
 	if recv != nil {
 		rn := "recv"
 		if sig.Recv() != nil && sig.Recv().Name() != "" && sig.Recv().Name() != "_" {
@@ -399,21 +404,36 @@ func (fx *FuncExec) applyContract(st *State, c *Contract, key string, cpkg *type
 			}
 		} else {
 			for _, cn := range fx.reg.comps {
-				if !strings.HasPrefix(cn, "AL_") {
-					comps = append(comps, cn)
-					fx.writes[cn] = true
-				}
+				comps = append(comps, cn)
+				fx.writes[cn] = true
 			}
 		}
 		preAl := map[string]string{}
-		for _, cn := range fx.reg.comps {
+		for _, cn := range comps {
 			if strings.HasPrefix(cn, "AL_") {
 				preAl[cn] = st.vars[cn]
-				comps = append(comps, cn)
+				if preAl[cn] == "" {
+					preAl[cn] = fx.h0(cn)
+				}
 			}
 		}
 		fx.havocHeap(st, comps)
 		fx.allocMonotone(st, preAl)
+		if c.HasModifies {
+			mod := fx.modTerms(c, func() *SpecEnv { return mkEnv(pre, pre, "modifies") })
+			fx.frameFacts(st, pre, comps, mod)
+			fx.subFrame(pre, mod, key, pos)
+		} else if fx.modSet != nil && len(comps) > 0 {
+			nonAL := false
+			for _, cn := range comps {
+				if !strings.HasPrefix(cn, "AL_") && !strings.HasPrefix(cn, "GV_") {
+					nonAL = true
+				}
+			}
+			if nonAL {
+				fx.oblige(pre, "frame-call", key, "false", "callee "+key+" has no modifies clause: its writes cannot be framed", pos)
+			}
+		}
 	}
 	results := fx.freshResults(st, sig, pre)
 	rnames := make([]string, len(results))
@@ -583,6 +603,9 @@ func (fx *FuncExec) evalBuiltin(st *State, call *ast.CallExpr, name string) []Te
 			base := "(+ (soff " + s.S + ") (slen " + s.S + "))"
 			st.assume(fmt.Sprintf("(forall ((%s Int)) (! (= (select %s %s) (ite (and (<= %s %s) (< %s (+ %s (slen %s)))) (select %s (- %s %s)) (select %s %s))) :pattern ((select %s %s))))",
 				i, ni, i, base, i, i, base, t.S, b, i, base, oldArr, i, ni, i))
+			st.guards = append(st.guards, cond)
+			fx.frameWrite(st, comp, "(sref "+s.S+")", call.Pos())
+			st.guards = st.guards[:len(st.guards)-1]
 			fx.setHq(st, comp, ite(cond, store(fx.H(st, comp), "(sref "+s.S+")", ni), store(fx.H(st, comp), ref, na)))
 			n := "(+ (slen " + s.S + ") (slen " + t.S + "))"
 			return []Term{{S: ite(cond, "(mk_slice (sref "+s.S+") (soff "+s.S+") "+n+")", "(mk_slice "+ref+" 0 "+n+")"), Sort: "Slice", T: stype}}
@@ -604,6 +627,9 @@ func (fx *FuncExec) evalBuiltin(st *State, call *ast.CallExpr, name string) []Te
 			arr = store(arr, fmt.Sprintf("(+ (slen %s) %d)", s.S, i), v.S)
 			arrIn = store(arrIn, fmt.Sprintf("(+ (+ (soff %s) (slen %s)) %d)", s.S, s.S, i), v.S)
 		}
+		st.guards = append(st.guards, cond)
+		fx.frameWrite(st, comp, "(sref "+s.S+")", call.Pos())
+		st.guards = st.guards[:len(st.guards)-1]
 		fx.setHq(st, comp, ite(cond, store(fx.H(st, comp), "(sref "+s.S+")", arrIn), store(fx.H(st, comp), ref, arr)))
 		n := fmt.Sprintf("(+ (slen %s) %d)", s.S, len(vals))
 		return []Term{{S: ite(cond, "(mk_slice (sref "+s.S+") (soff "+s.S+") "+n+")", "(mk_slice "+ref+" 0 "+n+")"), Sort: "Slice", T: stype}}
@@ -623,6 +649,9 @@ func (fx *FuncExec) evalBuiltin(st *State, call *ast.CallExpr, name string) []Te
 		i := fmt.Sprintf("i!c%d", fx.nq)
 		st.assume(fmt.Sprintf("(forall ((%s Int)) (! (= (select %s %s) (ite (and (<= (soff %s) %s) (< %s (+ (soff %s) %s))) (select %s (+ (- %s (soff %s)) (soff %s))) (select %s %s))) :pattern ((select %s %s))))",
 			i, na, i, d.S, i, i, d.S, n, src, i, d.S, s.S, old, i, na, i))
+		st.guards = append(st.guards, and(not(eq("(sref "+d.S+")", "null_SRef")), "(> "+n+" 0)"))
+		fx.frameWrite(st, comp, "(sref "+d.S+")", call.Pos())
+		st.guards = st.guards[:len(st.guards)-1]
 		fx.setH(st, comp, ite(eq("(sref "+d.S+")", "null_SRef"), fx.H(st, comp), store(fx.H(st, comp), "(sref "+d.S+")", na)))
 		return []Term{{S: n, Sort: "Int", T: types.Typ[types.Int]}}
 	case "min", "max":
@@ -728,99 +757,105 @@ func (fx *FuncExec) dispatchCall(st *State, call *ast.CallExpr, sig *types.Signa
 	}
 	fx.reg.declFun("fn_code", "(declare-fun fn_code (Fn) Int)")
 	fx.oblige(st, "panic/nilfunc", "", not(eq(self.S, "fn_nil")), "called function value is non-nil: "+trunc(exprString(call.Fun), 40), call.Pos())
-	codeOf := func(li *FuncInfo) string { return fmt.Sprint(fx.ctx.litCode(li.Key)) }
-	mkEnv := func(cd cand, cur, old *State, results []Term) *SpecEnv {
-		e := &SpecEnv{fx: fx, cur: cur, old: old, bound: map[string]Term{}, pkg: cd.li.Pkg.Types, where: "dispatch " + cd.li.Key}
+	if fx.forced == -1 && fx.loopDepth > 0 {
+		panic(splitSignal{len(cands)}) // re-execute the enclosing loop body once per candidate
+	}
+	if fx.forced >= 0 && fx.forced < len(cands) {
+		cd := cands[fx.forced]
+		fx.forced = -2
+		short := cd.li.Key
+		if i := strings.LastIndex(short, "."); i >= 0 {
+			short = short[i+1:]
+		}
+		fx.suffix = "@" + short
+		st.assume(eq("(fn_code "+self.S+")", fmt.Sprint(fx.ctx.litCode(cd.li.Key))))
+		caps := map[string]Term{}
 		lfx := &FuncExec{ctx: fx.ctx, reg: fx.reg, pkg: cd.li.Pkg, info: cd.li.Pkg.TypesInfo, fi: cd.li}
 		for _, v := range lfx.freeVars(cd.li.Lit) {
 			uf := "cap_" + sanitize(cd.li.Key) + "_" + v.Name()
 			vs := fx.reg.SortOf(v.Type())
 			fx.reg.declFun(uf, fmt.Sprintf("(declare-fun %s (Fn) %s)", uf, vs))
-			e.bound[v.Name()] = Term{S: "(" + uf + " " + self.S + ")", Sort: vs, T: v.Type()}
+			caps[v.Name()] = Term{S: "(" + uf + " " + self.S + ")", Sort: vs, T: v.Type()}
 		}
-		for i := 0; i < cd.li.Sig.Params().Len() && i < len(args); i++ {
-			if n := cd.li.Sig.Params().At(i).Name(); n != "" && n != "_" {
-				e.bound[n] = args[i]
-			}
-		}
-		e.bound["self"] = self
-		for i, r := range results {
-			name := fmt.Sprintf("result%d", i)
-			if len(results) == 1 {
-				name = "result"
-			}
-			e.bound[name] = r
-			if rn := cd.li.Sig.Results().At(i).Name(); rn != "" {
-				e.bound[rn] = r
-			}
-		}
-		return e
+		selfCopy := self
+		return fx.applyContract(st, cd.c, cd.li.Key, cd.li.Pkg.Types, cd.li.Sig, nil, &selfCopy, args, call.Pos(), caps), true
 	}
+	// one branch per candidate literal (closed world: exactly these), merged afterwards
+	var outs []*State
+	nres := sig.Results().Len()
 	for _, cd := range cands {
-		guard := eq("(fn_code "+self.S+")", codeOf(cd.li))
-		for _, r := range cd.c.Requires {
-			if r.Free {
-				continue
-			}
-			env := mkEnv(cd, st, st, nil)
-			fx.oblige(st, "call-requires", "dispatch:"+cd.li.Key, imp(guard, env.Bool(r.Expr)), r.Text, call.Pos())
+		b := st.clone()
+		b.assume(eq("(fn_code "+self.S+")", fmt.Sprint(fx.ctx.litCode(cd.li.Key))))
+		caps := map[string]Term{}
+		lfx := &FuncExec{ctx: fx.ctx, reg: fx.reg, pkg: cd.li.Pkg, info: cd.li.Pkg.TypesInfo, fi: cd.li}
+		for _, v := range lfx.freeVars(cd.li.Lit) {
+			uf := "cap_" + sanitize(cd.li.Key) + "_" + v.Name()
+			vs := fx.reg.SortOf(v.Type())
+			fx.reg.declFun(uf, fmt.Sprintf("(declare-fun %s (Fn) %s)", uf, vs))
+			caps[v.Name()] = Term{S: "(" + uf + " " + self.S + ")", Sort: vs, T: v.Type()}
 		}
+		selfCopy := self
+		rs := fx.applyContract(b, cd.c, cd.li.Key, cd.li.Pkg.Types, cd.li.Sig, nil, &selfCopy, args, call.Pos(), caps)
+		for i := 0; i < nres && i < len(rs); i++ {
+			k := fmt.Sprintf("D:res%d@%d", i, call.Pos())
+			fx.varSort[k] = rs[i].Sort
+			b.vars[k] = rs[i].S
+		}
+		outs = append(outs, b)
 	}
-	pre := st.clone()
-	union := map[string]bool{}
-	for _, cd := range cands {
-		if cd.c.Pure {
-			continue
-		}
-		if !cd.c.HasAssigns {
-			for _, cn := range fx.reg.comps {
-				union[cn] = true
-			}
-			continue
-		}
-		for cn := range fx.assignsComps(cd.c, cd.li.Pkg.Types) {
-			union[cn] = true
-		}
+	merged := fx.mergeStates(outs)
+	st.vars = merged.vars
+	st.pc = merged.pc
+	var results []Term
+	for i := 0; i < nres; i++ {
+		k := fmt.Sprintf("D:res%d@%d", i, call.Pos())
+		t := sig.Results().At(i).Type()
+		results = append(results, Term{S: st.vars[k], Sort: fx.varSort[k], T: t})
+		delete(st.vars, k)
 	}
-	var comps []string
-	preAl := map[string]string{}
-	for _, cn := range fx.reg.comps {
-		if strings.HasPrefix(cn, "AL_") {
-			preAl[cn] = st.vars[cn]
-			if preAl[cn] == "" {
-				preAl[cn] = fx.h0(cn)
-			}
-			comps = append(comps, cn)
-		} else if union[cn] {
-			comps = append(comps, cn)
-			fx.writes[cn] = true
-		}
-	}
-	fx.havocHeap(st, comps)
-	fx.allocMonotone(st, preAl)
-	results := fx.freshResults(st, sig, pre)
-	var codes []string
-	for _, cd := range cands {
-		guard := eq("(fn_code "+self.S+")", codeOf(cd.li))
-		codes = append(codes, guard)
-		for _, en := range cd.c.Ensures {
-			env := mkEnv(cd, st, pre, results)
-			st.assume(imp(guard, env.Bool(en.Expr)))
-		}
-		// per-candidate frame: components havocked for the union but outside this literal's own assigns
-		own := map[string]bool{}
-		if !cd.c.Pure && cd.c.HasAssigns {
-			own = fx.assignsComps(cd.c, cd.li.Pkg.Types)
-		}
-		if cd.c.Pure || cd.c.HasAssigns {
-			for _, cn := range comps {
-				if strings.HasPrefix(cn, "AL_") || own[cn] {
-					continue
-				}
-				st.assume(imp(guard, eq(st.vars[cn], pre.vars[cn])))
-			}
-		}
-	}
-	st.assume(or(codes...)) // closed world
 	return results, true
+}
+
+func (fx *FuncExec) subFrameGuarded(pre *State, mod map[string][]string, key string, pos token.Pos, guard string) {
+	if fx.modSet == nil {
+		return
+	}
+	pre = pre.clone()
+	pre.assume(guard)
+	fx.subFrame(pre, mod, key, pos)
+}
+
+// subFrame: the callee's modifies set must lie within this function's own
+// modifies set (or consist of objects allocated since entry).
+func (fx *FuncExec) subFrame(pre *State, mod map[string][]string, key string, pos token.Pos) {
+	if fx.modSet == nil {
+		return
+	}
+	for _, ks := range sortedKeysSS(mod) {
+		al, ok := fx.reg.allocOf[ks]
+		if !ok {
+			continue
+		}
+		entryAl := fx.entry.vars[al]
+		if entryAl == "" {
+			entryAl = fx.h0(al)
+		}
+		for _, m := range mod[ks] {
+			var ins []string
+			for _, mine := range fx.modSet[ks] {
+				ins = append(ins, eq(m, mine))
+			}
+			zero := fx.reg.Zero(ks)
+			fx.oblige(pre, "frame-call", key, imp(and(sel(entryAl, m), not(eq(m, zero))), or(ins...)), "callee's modifies set is within the caller's: "+trunc(m, 60), pos)
+		}
+	}
+}
+
+func sortedKeysSS(m map[string][]string) []string {
+	ks := make([]string, 0, len(m))
+	for k := range m {
+		ks = append(ks, k)
+	}
+	sort.Strings(ks)
+	return ks
 }
